@@ -105,9 +105,28 @@ func (g *verifTypeGen) gen(depth int) types.Type {
 		sig := types.NewSignatureType(nil, nil, nil, types.NewTuple(v("", g.gen(depth-1))), nil, false)
 		ms = append(ms, types.NewFunc(token.NoPos, g.pkg, []string{"M", "n"}[i], sig))
 	}
+	// embedded interfaces: none, error, or two/three distinct ones (named and literal)
+	lit := func(name string, res types.Type) types.Type {
+		var rs *types.Tuple
+		if res != nil {
+			rs = types.NewTuple(v("", res))
+		}
+		m := types.NewFunc(token.NoPos, g.pkg, name, types.NewSignatureType(nil, nil, nil, nil, rs, false))
+		li := types.NewInterfaceType([]*types.Func{m}, nil)
+		li.Complete()
+		return li
+	}
+	errT := types.Universe.Lookup("error").Type()
 	var embeds []types.Type
-	if vp.Choose(g.name("iemb"), 2) == 1 {
-		embeds = []types.Type{types.Universe.Lookup("error").Type()}
+	switch vp.Choose(g.name("iemb"), 5) {
+	case 1:
+		embeds = []types.Type{errT}
+	case 2:
+		embeds = []types.Type{errT, lit("String", types.Typ[types.String])}
+	case 3:
+		embeds = []types.Type{lit("Close", nil), errT, lit("String", types.Typ[types.String])}
+	case 4:
+		embeds = []types.Type{lit("String", types.Typ[types.String]), lit("Close", nil)}
 	}
 	it := types.NewInterfaceType(ms, embeds)
 	it.Complete()
@@ -184,4 +203,95 @@ func VerifH_C13_universe() {
 	pkg := NewPackage("", "u", conf)
 	T := all[vp.Choose("T", len(all))]
 	verifTypeRoundTrip(pkg, T.typ)
+}
+
+
+// generics: constraint interfaces (unions, approximation terms, comparable, methods) and
+// instantiated generic named types with one to three type arguments
+const verifGenericExtra = `
+type G1[T any] struct{ v T }
+type G2[K comparable, V any] map[K]V
+type G3[A, B, C any] func(A, B) C
+`
+
+func VerifH_C13_generics() {
+	upkg, _ := verifUniverse(verifGenericExtra)
+	conf := &Config{Types: upkg, Importer: verifImporter{}, HandleErr: func(err error) { panic(err) }}
+	pkg := NewPackage("", "u", conf)
+	args := []types.Type{types.Typ[types.Int], types.Typ[types.String], upkg.Scope().Lookup("NInt").Type(), types.NewSlice(types.Typ[types.Bool]), upkg.Scope().Lookup("NSt").Type()}
+	var T types.Type
+	isConstraint := false
+	switch vp.Choose("kind", 5) {
+	case 0:
+		g := upkg.Scope().Lookup("G1").Type()
+		T, _ = types.Instantiate(nil, g, []types.Type{args[vp.Choose("a0", len(args))]}, false)
+	case 1:
+		g := upkg.Scope().Lookup("G2").Type()
+		T, _ = types.Instantiate(nil, g, []types.Type{args[vp.Choose("a0", 3)], args[vp.Choose("a1", len(args))]}, false)
+	case 2:
+		g := upkg.Scope().Lookup("G3").Type()
+		T, _ = types.Instantiate(nil, g, []types.Type{args[vp.Choose("a0", len(args))], args[vp.Choose("a1", len(args))], args[vp.Choose("a2", len(args))]}, false)
+	case 3: // nested instantiation inside a composite
+		g1 := upkg.Scope().Lookup("G1").Type()
+		g2 := upkg.Scope().Lookup("G2").Type()
+		in, _ := types.Instantiate(nil, g1, []types.Type{args[vp.Choose("a0", len(args))]}, false)
+		out, _ := types.Instantiate(nil, g2, []types.Type{args[vp.Choose("a1", 3)], types.NewPointer(in)}, false)
+		T = types.NewSlice(out)
+	case 4: // constraint interface
+		isConstraint = true
+		terms := []*types.Term{}
+		pool := []types.Type{types.Typ[types.Int], types.Typ[types.String], types.Typ[types.Float64], upkg.Scope().Lookup("NInt").Type()}
+		nt := 1 + vp.Choose("nterms", 3)
+		for i := 0; i < nt; i++ {
+			tt := pool[(i+vp.Choose("t0", len(pool)))%len(pool)]
+			tilde := vp.Choose("tilde"+string(rune('0'+i)), 2) == 1
+			if _, named := tt.(*types.Named); named {
+				tilde = false // ~T requires T to be its own underlying type
+			}
+			terms = append(terms, types.NewTerm(tilde, tt))
+		}
+		embeds := []types.Type{types.NewUnion(terms)}
+		if vp.Choose("comparable", 2) == 1 {
+			embeds = append([]types.Type{types.Universe.Lookup("comparable").Type()}, embeds...)
+		}
+		var ms []*types.Func
+		if vp.Choose("method", 2) == 1 {
+			ms = append(ms, types.NewFunc(token.NoPos, upkg, "String", types.NewSignatureType(nil, nil, nil, nil, types.NewTuple(types.NewVar(token.NoPos, upkg, "", types.Typ[types.String])), false)))
+		}
+		it := types.NewInterfaceType(ms, embeds)
+		it.Complete()
+		T = it
+	}
+	var text string
+	class := vp.Try(func() {
+		var buf bytes.Buffer
+		if err := format.Node(&buf, token.NewFileSet(), TypeAST(pkg, T)); err != nil {
+			panic(err)
+		}
+		text = buf.String()
+	})
+	vp.Assert("C17.c13.generics.nofault", class == vp.NoPanic)
+	if class != vp.NoPanic {
+		return
+	}
+	vp.Observe("text", text)
+	var back types.Type
+	if isConstraint {
+		rp, _ := verifUniverse(verifGenericExtra + "\ntype ZZ_C " + text + "\n")
+		if o := rp.Scope().Lookup("ZZ_C"); o != nil {
+			back = o.Type().Underlying()
+		}
+	} else {
+		rp, _ := verifUniverse(verifGenericExtra + "\nvar t_zz_x " + text + "\n")
+		if o, ok := rp.Scope().Lookup("t_zz_x").(*types.Var); ok {
+			back = o.Type()
+		}
+	}
+	vp.Assert("C13.generics.readable", back != nil && back != types.Typ[types.Invalid])
+	if back == nil {
+		return
+	}
+	vp.Observe("back", types.TypeString(back, nil))
+	vp.Observe("orig", types.TypeString(T, nil))
+	vp.Assert("C13.generics.identical", types.TypeString(back, nil) == types.TypeString(T, nil))
 }
